@@ -1000,10 +1000,10 @@ impl ActTask for Arc<Task> {
                 if let Some(task) = &parent.clone() {
                     // an act started by a lifecycle hook runs beside the flow; only a step or an
                     // act waits for it (they count their children before they complete), so only
-                    // they are looked at again when it is done
+                    // they are looked at again when it is done, and only while they are open
                     if !ctx.task().is_event_processed()
-                        || task.is_kind(NodeKind::Step)
-                        || task.is_kind(NodeKind::Act)
+                        || (!task.state().is_completed()
+                            && (task.is_kind(NodeKind::Step) || task.is_kind(NodeKind::Act)))
                     {
                         task.review(ctx)?;
                     }
